@@ -452,4 +452,409 @@ int main(int argc, char ** argv)
    return 2;
 }
 
-int MainHist(int, char **) {return 2;}
+// ------------------------------------------------------------------------------------------------ hist / replay
+static const uint32 ROUTED_WHAT = 4242;
+static std::string SessName(int i) {char c[2] = {(char)('0'+i), 0}; return c;}
+static mj::Value Ev(const char * e) {mj::Value o = mj::Value::Obj(); o.set("e", mj::Value::Str(e)); return o;}
+static mj::Value EvSet(int s, const SV & path, int w) {mj::Value o = Ev("Set"); o.set("s", mj::Value::Str(SessName(s))); o.set("path", JStrs(path)); o.set("w", mj::Value::Int(w)); return o;}
+static mj::Value EvRm(int s, const std::string & name) {mj::Value o = Ev("Rm"); o.set("s", mj::Value::Str(SessName(s))); o.set("name", mj::Value::Str(name)); return o;}
+static mj::Value EvRefl(int s, bool on) {mj::Value o = Ev("Refl"); o.set("s", mj::Value::Str(SessName(s))); o.set("on", mj::Value::Bool(on)); return o;}
+static mj::Value EvDef(int s, const std::vector<Pat> & keys) {mj::Value o = Ev("Def"); o.set("s", mj::Value::Str(SessName(s))); o.set("keys", JPats(keys)); return o;}
+static mj::Value EvDefClear(int s) {mj::Value o = Ev("DefClear"); o.set("s", mj::Value::Str(SessName(s))); return o;}
+static mj::Value EvSend(int s, const std::vector<Pat> & keys, const std::string & forge, int burst) {mj::Value o = Ev("Send"); o.set("s", mj::Value::Str(SessName(s))); o.set("keys", JPats(keys)); o.set("forge", mj::Value::Str(forge)); o.set("burst", mj::Value::Int(burst)); return o;}
+
+struct HistStats {long histories, steps, sends, keyed, viaDefault, broadcast, copies, recv, bursts, f25, wantedPairs, unwantedPairs, treeMismatch, events;
+   HistStats() : histories(0), steps(0), sends(0), keyed(0), viaDefault(0), broadcast(0), copies(0), recv(0), bursts(0), f25(0), wantedPairs(0), unwantedPairs(0), treeMismatch(0), events(0) {}};
+static HistStats g_hs;
+
+struct NodeInfo {SV path; int what;};
+static void WalkTree(DataNode & n, const World & w, std::vector<NodeInfo> & out)
+{
+   String np; (void) n.GetNodePath(np);
+   if (n.GetDepth() > 0) {NodeInfo ni; ni.path = AbstractPath(np(), w); ni.what = n.GetData()() ? (int) n.GetData()()->what : 0; out.push_back(ni);}
+   for (DataNodeRefIterator it = n.GetChildIterator(); it.HasData(); it++) WalkTree(*it.GetValue()(), w, out);
+}
+
+struct SendInfo {int s, n; std::vector<Pat> keys; std::string forge; std::vector<int> want, f25; std::string how;};
+
+// executes one history (steps in the event vocabulary) on a fresh server with nsess sessions; logs events to (log); judges with the monitor
+static void RunHistory(const std::string & hid, int nsess, const std::vector<mj::Value> & steps, FILE * log)
+{
+   Where("history %s", 0, 0); snprintf(g_where, sizeof(g_where), "history %s", hid.c_str());
+   Net net; net.Open(nsess);
+   std::vector<bool> refl(nsess, false); std::vector<std::vector<Pat> > defr(nsess);
+   std::map<std::string, int> mirror;     // the tree the events describe (what the specification will reconstruct): abstract path -> what
+   std::vector<std::string> bad, known;
+   int nsent = 0;
+   #define LOG(v) {std::string _s = mj::ToString(v); fprintf(log, "%s\n", _s.c_str()); g_hs.events++;}
+   {mj::Value r = Ev("Reset"); r.set("n", mj::Value::Int(nsess)); r.set("h", mj::Value::Str(hid)); LOG(r);}
+   g_hs.histories++;
+   size_t i = 0;
+   while ((i < steps.size())&&(bad.empty()))
+   {
+      const std::string e = steps[i]["e"].str();
+      g_hs.steps++;
+      if (e != "Send")
+      {
+         const int s = atoi(steps[i]["s"].str().c_str()); if ((s < 0)||(s >= nsess)) {i++; continue;}
+         Client & cl = *net.cs[s];
+         if (e == "Set")
+         {
+            SV path; for (size_t k=0; k<steps[i]["path"].size(); k++) path.push_back(steps[i]["path"][k].str());
+            std::string p; for (size_t k=0; k<path.size(); k++) {if (k) p += '/'; p += path[k];}
+            MessageRef m = GetMessageFromPool(PR_COMMAND_SETDATA); (void) m()->AddMessage(p.c_str(), GetMessageFromPool((uint32) steps[i]["w"].i())); (void) cl.gw.AddOutgoingMessage(m);
+            SV full; full.push_back("h"); full.push_back(SessName(s));
+            for (size_t k=0; k<path.size(); k++) {full.push_back(path[k]); const std::string key = PathKey(full); if (k+1 == path.size()) mirror[key] = (int) steps[i]["w"].i(); else if (!mirror.count(key)) mirror[key] = 0;}
+         }
+         else if (e == "Rm")
+         {
+            MessageRef m = GetMessageFromPool(PR_COMMAND_REMOVEDATA); (void) m()->AddString(PR_NAME_KEYS, steps[i]["name"].str().c_str()); (void) cl.gw.AddOutgoingMessage(m);
+            const std::string pre = "/h/"+SessName(s)+"/"+steps[i]["name"].str();
+            for (std::map<std::string, int>::iterator it = mirror.begin(); it != mirror.end(); ) {if ((it->first == pre)||(it->first.compare(0, pre.size()+1, pre+"/") == 0)) mirror.erase(it++); else ++it;}
+         }
+         else if (e == "Refl")
+         {
+            const bool on = steps[i]["on"].truthy(); refl[s] = on;
+            MessageRef m = GetMessageFromPool(on ? PR_COMMAND_SETPARAMETERS : PR_COMMAND_REMOVEPARAMETERS);
+            if (on) (void) m()->AddBool(PR_NAME_REFLECT_TO_SELF, true); else (void) m()->AddString(PR_NAME_KEYS, PR_NAME_REFLECT_TO_SELF);
+            (void) cl.gw.AddOutgoingMessage(m);
+         }
+         else if (e == "Def")
+         {
+            std::vector<Pat> keys; for (size_t k=0; k<steps[i]["keys"].size(); k++) {Pat p; PatFromJson(steps[i]["keys"][k], p); keys.push_back(p);}
+            defr[s] = keys;
+            MessageRef m = GetMessageFromPool(PR_COMMAND_SETPARAMETERS); AddKeys(*m(), keys, net.w, true); (void) cl.gw.AddOutgoingMessage(m);
+         }
+         else if (e == "DefClear")
+         {
+            defr[s].clear();
+            MessageRef m = GetMessageFromPool(PR_COMMAND_REMOVEPARAMETERS); (void) m()->AddString(PR_NAME_KEYS, PR_NAME_KEYS); (void) m()->AddString(PR_NAME_KEYS, PR_NAME_FILTERS); (void) cl.gw.AddOutgoingMessage(m);
+         }
+         else {i++; continue;}
+         LOG(steps[i]);
+         net.Pump(2);
+         i++;
+         continue;
+      }
+      // a burst: the adjacent Sends with the same non-zero burst number are handed over before the server runs
+      size_t j = i+1; const int burst = (int) steps[i]["burst"].i();
+      while ((burst != 0)&&(j < steps.size())&&(steps[j]["e"].str() == "Send")&&((int) steps[j]["burst"].i() == burst)) j++;
+      if (j-i > 1) g_hs.bursts++;
+      // the tree as it is on the server now
+      std::vector<NodeInfo> nodes; WalkTree(net.cs[0]->sess->Root(), net.w, nodes);
+      {
+         std::map<std::string, int> real; for (size_t k=0; k<nodes.size(); k++) if (nodes[k].path.size() >= 3) real[PathKey(nodes[k].path)] = nodes[k].what;
+         if (real != mirror) {g_hs.treeMismatch++; bad.push_back("the server's tree is not the tree the logged SETDATA / REMOVEDATA commands describe (C04's business, reported so that the trace is not misjudged)");}
+      }
+      std::vector<SendInfo> sends;
+      for (size_t k=i; k<j; k++)
+      {
+         SendInfo si; si.s = atoi(steps[k]["s"].str().c_str()); si.n = ++nsent; si.forge = steps[k]["forge"].str();
+         for (size_t q=0; q<steps[k]["keys"].size(); q++) {Pat p; PatFromJson(steps[k]["keys"][q], p); si.keys.push_back(p);}
+         // the property, directly: who is to get it
+         const std::vector<Pat> & eff = si.keys.empty() ? defr[si.s] : si.keys;
+         si.how = si.keys.empty() ? (eff.empty() ? "broadcast" : "default route") : "keys";
+         std::vector<Entry> es = EntriesOf(eff);
+         si.want.assign(nsess, 0); si.f25.assign(nsess, 0);
+         for (int r=0; r<nsess; r++)
+         {
+            bool hit = eff.empty(), sessNode = false, deeper = false;
+            for (size_t q=0; q<nodes.size(); q++) if ((nodes[q].path.size() >= 2)&&(nodes[q].path[1] == SessName(r)))
+               for (size_t x=0; x<es.size(); x++) if (EntryMatches(es[x], nodes[q].path, nodes[q].what)) {hit = true; if (nodes[q].path.size() == 2) sessNode = true; else deeper = true;}
+            si.want[r] = ((hit)&&((r != si.s)||(refl[si.s]))) ? 1 : 0; si.f25[r] = ((sessNode)&&(deeper)) ? 1 : 0;
+            if (si.want[r]) g_hs.wantedPairs++; else g_hs.unwantedPairs++;
+         }
+         g_hs.sends++; if (si.how == "keys") g_hs.keyed++; else if (si.how == "broadcast") g_hs.broadcast++; else g_hs.viaDefault++;
+         MessageRef m = GetMessageFromPool(ROUTED_WHAT); (void) m()->AddInt32("from", si.s); (void) m()->AddInt32("n", si.n);
+         AddKeys(*m(), si.keys, net.w, steps[k]["df"].truthy());
+         if (si.forge == "nonstr") (void) m()->AddInt32(PR_NAME_SESSION, 7);
+         else if (si.forge != "none") (void) m()->AddString(PR_NAME_SESSION, Conc(si.forge, net.w).c_str());
+         (void) net.cs[si.s]->gw.AddOutgoingMessage(m);
+         mj::Value ev = steps[k]; ev.set("n", mj::Value::Int(si.n)); LOG(ev);
+         sends.push_back(si);
+      }
+      for (size_t k=0; k<net.cs.size(); k++) net.cs[k]->got.clear();
+      net.Pump(3);
+      // what every client received, in the order it received it
+      for (int r=0; r<nsess; r++)
+      {
+         std::map<int, int> lastN; std::map<int, int> copiesOf;
+         for (size_t k=0; k<net.cs[r]->got.size(); k++)
+         {
+            const Message & g = *net.cs[r]->got[k]();
+            if (g.what != ROUTED_WHAT) continue;
+            const int from = g.GetInt32("from", -1), n = g.GetInt32("n", -1);
+            std::string sid = "none"; const String * ss;
+            if (g.FindString(PR_NAME_SESSION, &ss).IsOK()) {sid = ss->Cstr(); for (int q=0; q<nsess; q++) if (sid == net.w.ids[q]) sid = SessName(q);}
+            else if (g.HasName(PR_NAME_SESSION)) sid = "nonstr";
+            mj::Value ev = Ev("Recv"); ev.set("r", mj::Value::Str(SessName(r))); ev.set("from", mj::Value::Str(SessName(from))); ev.set("n", mj::Value::Int(n)); ev.set("sid", mj::Value::Str(sid)); LOG(ev);
+            g_hs.recv++;
+            char b[256];
+            const SendInfo * si = NULL; for (size_t q=0; q<sends.size(); q++) if (sends[q].n == n) si = &sends[q];
+            if ((si == NULL)||(si->s != from)) {snprintf(b, sizeof(b), "session %d received Message n=%d (from %d), which was not sent in this burst", r, n, from); bad.push_back(b); continue;}
+            if ((lastN.count(from))&&(n < lastN[from])) {snprintf(b, sizeof(b), "session %d received Message n=%d of sender %d after n=%d: out of order", r, n, from, lastN[from]); bad.push_back(b);}
+            lastN[from] = n; copiesOf[n]++;
+            const bool sidOK = (si->forge == "none") ? (sid == "none") : ((si->forge == "nonstr") ? ((sid == "nonstr")||(sid == SessName(from))) : (sid == SessName(from)));
+            if (!sidOK) {snprintf(b, sizeof(b), "session %d received Message n=%d from session %d with sender-identity field [%s] (sent with [%s])", r, n, from, sid.c_str(), si->forge.c_str()); bad.push_back(b);}
+         }
+         for (size_t q=0; q<sends.size(); q++)
+         {
+            const SendInfo & si = sends[q]; const int got = copiesOf.count(si.n) ? copiesOf[si.n] : 0; char b[300];
+            g_hs.copies += got;
+            if (got == si.want[r]) continue;
+            if ((got == 2)&&(si.want[r] == 1)&&(si.f25[r]))
+            {
+               g_hs.f25++; snprintf(b, sizeof(b), "session-node-key-plus-deeper: Message n=%d (%s) reached session %d in 2 copies", si.n, si.how.c_str(), r); known.push_back(b); continue;
+            }
+            snprintf(b, sizeof(b), "Message n=%d from session %d (%s, reflect-to-self %s): session %d received %d copies, the property wants %d", si.n, si.s, si.how.c_str(), refl[si.s] ? "on" : "off", r, got, si.want[r]);
+            bad.push_back(b);
+         }
+      }
+      LOG(Ev("Quiesce"));
+      i = j;
+   }
+   net.Close();
+   if (((!bad.empty())&&(g_bad < MAX_BAD))||(!known.empty()))
+   {
+      mj::Value r = mj::Value::Obj(); r.set("history", mj::Value::Str(hid)); r.set("nsess", mj::Value::Int(nsess));
+      if (!bad.empty()) {g_bad++; r.set("violations", JStrs(bad));}
+      if (!known.empty()) r.set("known", JStrs(known));
+      mj::Value st = mj::Value::Arr(); for (size_t k=0; k<steps.size(); k++) st.push(steps[k]); r.set("steps", st);
+      ReportLine(r);
+   }
+}
+
+// ---- generators
+static Pat MkPat(bool abs, const char * c1, const char * c2 = NULL, const char * c3 = NULL, const char * c4 = NULL, int f = 0)
+{Pat p; p.abs = abs; p.cl.push_back(c1); if (c2) p.cl.push_back(c2); if (c3) p.cl.push_back(c3); if (c4) p.cl.push_back(c4); p.f = f; return p;}
+static Pat RandomKey(std::mt19937 & rng, int nsess)
+{
+   const std::string r = SessName((int)(rng()%nsess));
+   Pat p;
+   switch (rng()%19)
+   {
+      case 0: p = MkPat(false, "a"); break;            case 1: p = MkPat(false, "*"); break;             case 2: p = MkPat(false, "a", "*"); break;
+      case 3: p = MkPat(false, "*", "b"); break;       case 4: p = MkPat(false, "b", "a"); break;        case 5: p = MkPat(false, "b,a"); break;
+      case 6: p = MkPat(false, "\\a"); break;          case 7: p = MkPat(false, "~a"); break;            case 8: p = MkPat(false, "?"); break;
+      case 9: p = MkPat(false, "(a|c)", "a"); break;   case 10: p = MkPat(false, "*", "*"); break;       case 11: p = MkPat(true, "*", "*", "a"); break;
+      case 12: p = MkPat(true, "*", r.c_str()); break; case 13: p = MkPat(true, "*", r.c_str(), "*"); break; case 14: p = MkPat(true, "h", "*", "b"); break;
+      case 15: p = MkPat(true, "*", "<0-1>", "a"); break; case 16: p = MkPat(true, "*"); break;         case 17: p = MkPat(true, "*", "~0", "*"); break;
+      default: p = MkPat(true, "*", "1,0", "b,a"); break;
+   }
+   if (NormCl(p).size() >= 3) p.f = (int)(rng()%3);
+   return p;
+}
+// F25 (open) is kept out of the generated Messages: a key of depth 2 (a session node) is never combined with a deeper key
+static void AvoidF25(std::vector<Pat> & keys)
+{
+   bool two = false; for (size_t i=0; i<keys.size(); i++) if (NormCl(keys[i]).size() == 2) two = true;
+   if (two) {std::vector<Pat> k2; for (size_t i=0; i<keys.size(); i++) if (NormCl(keys[i]).size() <= 2) k2.push_back(keys[i]); keys = k2;}
+}
+static void RandomHistory(std::mt19937 & rng, int nsteps, int & nsess, std::vector<mj::Value> & steps)
+{
+   static const char * names[] = {"a", "b"};
+   nsess = 3+(int)(rng()%2); std::vector<bool> refl(nsess, false); std::vector<bool> hasDef(nsess, false); int burstNo = 0;
+   while ((int) steps.size() < nsteps)
+   {
+      const int s = (int)(rng()%nsess);
+      switch (rng()%10)
+      {
+         case 0: case 1: case 2: {SV p; p.push_back(names[rng()%2]); if (rng()%2) p.push_back(names[rng()%2]); steps.push_back(EvSet(s, p, 1+(int)(rng()%2)));} break;
+         case 3: steps.push_back(EvRm(s, names[rng()%2])); break;
+         case 4: refl[s] = !refl[s]; steps.push_back(EvRefl(s, refl[s])); break;
+         case 5:
+            if ((rng()%3)||(!hasDef[s])) {std::vector<Pat> keys; const int nk = 1+(int)(rng()%2); for (int k=0; k<nk; k++) keys.push_back(RandomKey(rng, nsess)); AvoidF25(keys); steps.push_back(EvDef(s, keys)); hasDef[s] = true;}
+            else {steps.push_back(EvDefClear(s)); hasDef[s] = false;}
+         break;
+         default:
+         {
+            const int nb = (rng()%3 == 0) ? 2+(int)(rng()%2) : 1; const bool sameSender = (rng()%2 == 0); if (nb > 1) burstNo++;
+            for (int b=0; b<nb; b++)
+            {
+               const int snd = ((b == 0)||(sameSender)) ? s : (int)(rng()%nsess);
+               std::vector<Pat> keys; const int nk = (int)(rng()%4); for (int k=0; k<nk; k++) keys.push_back(RandomKey(rng, nsess));
+               if ((nk >= 2)&&(rng()%6 == 0)) {keys[nk-1].abs = true; keys[nk-1].cl = NormCl(keys[0]);}      // the same path twice, written the other way; the filters may differ
+               AvoidF25(keys);
+               std::string forge = "none"; switch (rng()%4) {case 1: forge = SessName((int)(rng()%nsess)); break; case 2: forge = "999"; break; case 3: forge = "nonstr"; break; default: break;}
+               mj::Value ev = EvSend(snd, keys, forge, (nb > 1) ? burstNo : 0);
+               bool anyF = false; for (size_t k=0; k<keys.size(); k++) if (keys[k].f) anyF = true;
+               if ((!anyF)&&(!keys.empty())&&(rng()%4 == 0)) ev.set("df", mj::Value::Int(1));      // a filters field whose entries are not filters
+               steps.push_back(ev);
+            }
+         }
+         break;
+      }
+   }
+}
+// small exhaustive: every tree of {no node, b, a, a+b, a/a}^3 x every one-key Message of the menu and every two-key Message of the core menu (F25's
+// combination left out) x reflect-to-self off / on, sender session 0; (count) of them, evenly spread
+static const int SMALL_CODES[] = {0, 1, 5, 6, 10};
+static void SmallSpace(std::vector<std::vector<Pat> > & keysets)
+{
+   for (size_t i=0; i<g_menu.size(); i++) {std::vector<Pat> k; Pat p; p.cl = g_menu[i]; k.push_back(p); keysets.push_back(k);}
+   Universe u; GetUniverse("core", u);
+   for (size_t i=0; i<u.menu.size(); i++) for (size_t j=0; j<u.menu.size(); j++)
+   {
+      std::vector<Pat> k; k.push_back(MenuPat(u, (long) i)); k.push_back(MenuPat(u, (long) j));
+      if ((k[0].cl.size() >= 3)&&(k[0].cl[0] == "*")&&(k[0].cl[1] == "*")) {k[0].abs = false; k[0].cl.erase(k[0].cl.begin(), k[0].cl.begin()+2);}   // first key in the relative form
+      const size_t before = k.size(); AvoidF25(k); if (k.size() == before) keysets.push_back(k);
+   }
+}
+static void SmallHistory(long tree, const std::vector<long> & combos, const std::vector<std::vector<Pat> > & keysets, std::vector<mj::Value> & steps)
+{
+   int codes[3] = {SMALL_CODES[tree%5], SMALL_CODES[(tree/5)%5], SMALL_CODES[tree/25]};
+   for (int s=0; s<3; s++)
+   {
+      SV a; a.push_back("a"); SV b; b.push_back("b"); SV aa; aa.push_back("a"); aa.push_back("a");
+      if (codes[s]/5 >= 1) steps.push_back(EvSet(s, a, WhatOf(s, a, 0)));
+      if (codes[s]/5 == 2) steps.push_back(EvSet(s, aa, WhatOf(s, aa, 0)));
+      if (codes[s]%5 >= 1) steps.push_back(EvSet(s, b, WhatOf(s, b, 0)));
+   }
+   bool refl = false;
+   for (size_t i=0; i<combos.size(); i++)
+   {
+      const bool wantRefl = (combos[i]%2) != 0; const long ks = combos[i]/2;
+      if (wantRefl != refl) {steps.push_back(EvRefl(0, wantRefl)); refl = wantRefl;}
+      steps.push_back(EvSend(0, keysets[ks], "none", 0));
+   }
+}
+static void Directed(std::vector<std::pair<std::string, std::vector<mj::Value> > > & hs)
+{
+   SV a; a.push_back("a"); SV b; b.push_back("b"); SV ab; ab.push_back("a"); ab.push_back("b"); SV ba; ba.push_back("b"); ba.push_back("a");
+   #define KEYS1(k1) std::vector<Pat> ks; ks.push_back(k1);
+   #define KEYS2(k1,k2) std::vector<Pat> ks; ks.push_back(k1); ks.push_back(k2);
+   {  // F25 (open finding): a key for the receiver's session node and a deeper key matching a node of the same receiver, in one Message
+      std::vector<mj::Value> st; st.push_back(EvSet(1, a, 1));
+      {KEYS2(MkPat(true, "*", "1"), MkPat(false, "a")) st.push_back(EvSend(0, ks, "none", 0));}
+      hs.push_back(std::make_pair(std::string("F25"), st));
+   }
+   {  // the Beginner's Guide example: two keys, the receiver owns both nodes: one copy; also "*", "*/*", and keys of two depths
+      std::vector<mj::Value> st; st.push_back(EvSet(1, a, 1)); st.push_back(EvSet(1, b, 1)); st.push_back(EvSet(1, ab, 1)); st.push_back(EvSet(1, ba, 1)); st.push_back(EvSet(2, b, 2));
+      {KEYS2(MkPat(false, "a"), MkPat(false, "b")) st.push_back(EvSend(0, ks, "none", 0));}
+      {KEYS1(MkPat(false, "*")) st.push_back(EvSend(0, ks, "none", 0));}
+      {KEYS1(MkPat(false, "*", "*")) st.push_back(EvSend(0, ks, "none", 0));}
+      {KEYS2(MkPat(false, "a", "b"), MkPat(false, "b", "a")) st.push_back(EvSend(0, ks, "none", 0));}
+      {KEYS2(MkPat(false, "a"), MkPat(false, "b", "a")) st.push_back(EvSend(0, ks, "none", 0));}
+      {KEYS2(MkPat(false, "j*"), MkPat(false, "b")) st.clear();}     // (not in the token table: left out)
+      hs.push_back(std::make_pair(std::string("doc-example"), st));
+      hs.back().second.clear();
+      std::vector<mj::Value> & s2 = hs.back().second; s2.push_back(EvSet(1, a, 1)); s2.push_back(EvSet(1, b, 1)); s2.push_back(EvSet(1, ab, 1)); s2.push_back(EvSet(1, ba, 1)); s2.push_back(EvSet(2, b, 2));
+      {KEYS2(MkPat(false, "a"), MkPat(false, "b")) s2.push_back(EvSend(0, ks, "none", 0));}
+      {KEYS1(MkPat(false, "*")) s2.push_back(EvSend(0, ks, "none", 0));}
+      {KEYS1(MkPat(false, "*", "*")) s2.push_back(EvSend(0, ks, "none", 0));}
+      {KEYS2(MkPat(false, "a", "b"), MkPat(false, "b", "a")) s2.push_back(EvSend(0, ks, "none", 0));}
+      {KEYS2(MkPat(false, "a"), MkPat(false, "b", "a")) s2.push_back(EvSend(0, ks, "none", 0));}
+   }
+   {  // the default route: applied to Messages without keys, cleared again -> broadcast; keys in the Message win over it
+      std::vector<mj::Value> st; st.push_back(EvSet(1, a, 1)); st.push_back(EvSet(2, b, 1));
+      {KEYS1(MkPat(false, "a")) st.push_back(EvDef(0, ks));}
+      {std::vector<Pat> none; st.push_back(EvSend(0, none, "none", 0));}
+      {KEYS1(MkPat(false, "b")) st.push_back(EvSend(0, ks, "none", 0));}
+      {KEYS2(MkPat(false, "b", 0, 0, 0, 2), MkPat(false, "a", 0, 0, 0, 2)) st.push_back(EvDef(0, ks));}
+      {std::vector<Pat> none; st.push_back(EvSend(0, none, "none", 0));}
+      st.push_back(EvDefClear(0));
+      {std::vector<Pat> none; st.push_back(EvSend(0, none, "none", 0)); st.push_back(EvSend(1, none, "none", 0));}
+      hs.push_back(std::make_pair(std::string("default-route"), st));
+   }
+   {  // forged sender-identity fields
+      std::vector<mj::Value> st; st.push_back(EvSet(1, a, 1)); st.push_back(EvSet(2, a, 1));
+      {KEYS1(MkPat(false, "a")) st.push_back(EvSend(0, ks, "1", 0)); st.push_back(EvSend(0, ks, "999", 0)); st.push_back(EvSend(0, ks, "nonstr", 0)); st.push_back(EvSend(0, ks, "0", 0)); st.push_back(EvSend(2, ks, "0", 0));}
+      {std::vector<Pat> none; st.push_back(EvSend(1, none, "2", 0));}
+      hs.push_back(std::make_pair(std::string("forged-identity"), st));
+   }
+   {  // the same path twice keeps the LATER filter; an entry that is not a filter means no filter
+      std::vector<mj::Value> st; st.push_back(EvSet(1, a, 1)); st.push_back(EvSet(2, a, 2));
+      {KEYS2(MkPat(false, "a", 0, 0, 0, 2), MkPat(true, "*", "*", "a", 0, 1)) st.push_back(EvSend(0, ks, "none", 0));}
+      {KEYS2(MkPat(false, "a", 0, 0, 0, 1), MkPat(true, "*", "*", "a", 0, 2)) st.push_back(EvSend(0, ks, "none", 0));}
+      {KEYS2(MkPat(false, "a", 0, 0, 0, 1), MkPat(false, "a", 0, 0, 0, 0)) st.push_back(EvSend(0, ks, "none", 0));}
+      {KEYS2(MkPat(false, "b", 0, 0, 0, 0), MkPat(false, "a", 0, 0, 0, 2)) st.push_back(EvSend(0, ks, "none", 0));}
+      {KEYS1(MkPat(false, "a")) mj::Value ev = EvSend(0, ks, "none", 0); ev.set("df", mj::Value::Int(1)); st.push_back(ev);}
+      hs.push_back(std::make_pair(std::string("filters"), st));
+   }
+   {  // a key for the host level only selects nobody; a session-node key selects the session even if it owns no node
+      std::vector<mj::Value> st; st.push_back(EvSet(1, a, 1));
+      {KEYS1(MkPat(true, "*")) st.push_back(EvSend(0, ks, "none", 0));}
+      {KEYS1(MkPat(true, "h")) st.push_back(EvSend(0, ks, "none", 0));}
+      {KEYS1(MkPat(true, "*", "2")) st.push_back(EvSend(0, ks, "none", 0));}
+      {KEYS2(MkPat(true, "*", "2"), MkPat(true, "*", "1,0")) st.push_back(EvSend(0, ks, "none", 0));}
+      {KEYS1(MkPat(true, "*", "*")) st.push_back(EvSend(0, ks, "none", 0));}
+      {KEYS1(MkPat(true, "*", "<0-1>")) st.push_back(EvSend(2, ks, "none", 0));}
+      hs.push_back(std::make_pair(std::string("host-and-session-keys"), st));
+   }
+   {  // reflect-to-self
+      std::vector<mj::Value> st; st.push_back(EvSet(0, a, 1)); st.push_back(EvSet(1, a, 1));
+      {KEYS1(MkPat(false, "a")) st.push_back(EvSend(0, ks, "none", 0)); st.push_back(EvRefl(0, true)); st.push_back(EvSend(0, ks, "none", 0));}
+      {std::vector<Pat> none; st.push_back(EvSend(0, none, "none", 0));}
+      {KEYS1(MkPat(true, "*", "0")) st.push_back(EvSend(0, ks, "0", 0));}
+      st.push_back(EvRefl(0, false));
+      {KEYS1(MkPat(false, "a")) st.push_back(EvSend(0, ks, "none", 0));}
+      hs.push_back(std::make_pair(std::string("reflect-to-self"), st));
+   }
+   {  // bursts: several Messages handed over before the server runs; per (sender, receiver) order
+      std::vector<mj::Value> st; st.push_back(EvSet(1, a, 1)); st.push_back(EvSet(2, a, 1));
+      {KEYS1(MkPat(false, "a")) std::vector<Pat> none; st.push_back(EvSend(0, ks, "none", 1)); st.push_back(EvSend(0, none, "none", 1)); st.push_back(EvSend(0, ks, "none", 1)); st.push_back(EvSend(0, ks, "none", 1));
+         st.push_back(EvSend(1, ks, "none", 2)); st.push_back(EvSend(2, ks, "none", 2)); st.push_back(EvSend(1, none, "none", 2)); st.push_back(EvSend(0, ks, "none", 2));}
+      hs.push_back(std::make_pair(std::string("bursts"), st));
+   }
+}
+
+int MainHist(int argc, char ** argv)
+{
+   const std::string mode = argv[1];
+   std::vector<FILE *> outs; mj::Value files = mj::Value::Arr(); std::string prefix; int nfiles = 1;
+   std::string hmode; long count = 0; int nsteps = 0; uint32 seed = 1; const char * repPath = NULL; const char * behPath = NULL;
+   if (mode == "hist") {if (argc < 9) return 2; hmode = argv[2]; count = atol(argv[3]); nsteps = atoi(argv[4]); seed = (uint32) atol(argv[5]); nfiles = atoi(argv[6]); prefix = argv[7]; repPath = argv[8];}
+   else {if (argc < 5) return 2; hmode = "replay"; behPath = argv[2]; prefix = argv[3]; repPath = argv[4]; nfiles = 1;}
+   g_report = fopen(repPath, "w"); if (!g_report) return 2; g_reportFd = fileno(g_report);
+   {
+      Net tmp; tmp.Open(4); mj::Value h = Header("route", tmp.w, 4); h.set("nsess", mj::Value::Int(4)); tmp.Close();
+      for (int k=0; k<nfiles; k++) {char fn[1024]; snprintf(fn, sizeof(fn), "%s.%d.ndjson", prefix.c_str(), k); FILE * f = fopen(fn, "w"); if (!f) return 2; std::string s = mj::ToString(h); fprintf(f, "%s\n", s.c_str()); outs.push_back(f); files.push(mj::Value::Str(fn));}
+   }
+   long hn = 0;
+   if (hmode == "random")
+   {
+      for (long h=0; (h<count)&&(g_bad<MAX_BAD); h++)
+      {
+         std::mt19937 rng(seed*1000003u+(uint32)h*7919u+1u); int nsess = 3; std::vector<mj::Value> steps; RandomHistory(rng, nsteps, nsess, steps);
+         char id[64]; snprintf(id, sizeof(id), "random-%u-%ld", seed, h); RunHistory(id, nsess, steps, outs[hn++%nfiles]);
+      }
+   }
+   else if (hmode == "small")
+   {
+      std::vector<std::vector<Pat> > keysets; SmallSpace(keysets);
+      const long perTree = (long) keysets.size()*2, total = 125*perTree;
+      long stride = (count <= 0 || count >= total) ? 1 : total/count; while ((stride > 1)&&((stride%2 == 0)||(stride%5 == 0)||(perTree%stride == 0))) stride++;
+      std::map<long, std::vector<long> > byTree; long taken = 0;
+      for (long x=(long)(seed%stride); x<total; x+=stride) {byTree[x/perTree].push_back(x%perTree); taken++;}
+      for (std::map<long, std::vector<long> >::const_iterator it = byTree.begin(); (it != byTree.end())&&(g_bad<MAX_BAD); it++)
+      {
+         std::vector<mj::Value> steps; SmallHistory(it->first, it->second, keysets, steps);
+         char id[64]; snprintf(id, sizeof(id), "small-tree%ld", it->first); RunHistory(id, 3, steps, outs[hn++%nfiles]);
+      }
+      mj::Value sp = mj::Value::Obj(); sp.set("small_space", mj::Value::Int(total)); sp.set("taken", mj::Value::Int(taken)); sp.set("keysets", mj::Value::Int((long) keysets.size())); ReportLine(sp);
+   }
+   else if (hmode == "directed")
+   {
+      std::vector<std::pair<std::string, std::vector<mj::Value> > > hs; Directed(hs);
+      for (size_t h=0; h<hs.size(); h++) RunHistory("directed-"+hs[h].first, 3, hs[h].second, outs[hn++%nfiles]);
+   }
+   else
+   {
+      FILE * f = fopen(behPath, "r"); if (!f) return 2; std::string line;
+      while ((mj::ReadLine(f, line))&&(g_bad<MAX_BAD))
+      {
+         mj::Value b; if (!mj::Parse(line, b)) continue;
+         std::vector<mj::Value> steps; for (size_t k=0; k<b["steps"].size(); k++) steps.push_back(b["steps"][k]);
+         char id[64]; snprintf(id, sizeof(id), "behaviour-%ld", (long) b["id"].i()); RunHistory(id, (int) b["nsess"].i(), steps, outs[hn++%nfiles]);
+      }
+      fclose(f);
+   }
+   for (size_t k=0; k<outs.size(); k++) fclose(outs[k]);
+   mj::Value s = mj::Value::Obj(); s.set("summary", mj::Value::Bool(true)); s.set("mode", mj::Value::Str(hmode)); s.set("histories", mj::Value::Int(g_hs.histories)); s.set("steps", mj::Value::Int(g_hs.steps));
+   s.set("sends", mj::Value::Int(g_hs.sends)); s.set("keyed", mj::Value::Int(g_hs.keyed)); s.set("via_default_route", mj::Value::Int(g_hs.viaDefault)); s.set("broadcast", mj::Value::Int(g_hs.broadcast));
+   s.set("copies_delivered", mj::Value::Int(g_hs.copies)); s.set("recv_events", mj::Value::Int(g_hs.recv)); s.set("bursts", mj::Value::Int(g_hs.bursts)); s.set("f25_twice", mj::Value::Int(g_hs.f25));
+   s.set("wanted_pairs", mj::Value::Int(g_hs.wantedPairs)); s.set("unwanted_pairs", mj::Value::Int(g_hs.unwantedPairs)); s.set("tree_mismatch", mj::Value::Int(g_hs.treeMismatch)); s.set("events", mj::Value::Int(g_hs.events));
+   s.set("bad", mj::Value::Int(g_bad)); s.set("files", files);
+   ReportLine(s); fclose(g_report);
+   return 0;
+}
